@@ -1,4 +1,5 @@
 import SameVerif.Spec.FrontEnd
+import SameVerif.Spec.StreamObserved
 /-
   Executable decision of `Spec.BurstObserved` on a tapped real run: are the hypotheses of
   `C01.burst_delivered` / `Chain.transmission_decoded` met by what the DSP front end actually
@@ -32,33 +33,36 @@ structure FEOk where
 /-- first index `k < n` with `p k`, if any -/
 def firstIdx (n : Nat) (p : Nat → Bool) : Option Nat := (List.range n).find? p
 
-/-- decide `BurstObserved payload lead body tail acq rel` for `body = ticks[o, o + 8F)`,
-    `lead = ticks[leadFrom, o)`, `tail = ticks[o + 8F, o + 8F + rel + 40)` with the `acq`, `rel`
-    the clauses determine; on failure: the first clause that does not hold -/
-def checkBurstAt (ticks : Array Tick) (payload : List Byte) (leadFrom o : Nat) : Except String FEOk :=
+/-- correlator window error at stream index `t` (`31 ≤ t`): differences between the sync word and
+    the last 32 hard decisions -/
+def windowErr (ticks : Array Tick) (t : Nat) : Nat :=
+  (List.range 32).countP (fun i =>
+    SYNC_WORD.toBitVec.getLsbD i != (ticks.getD (t - 31 + i) (⟨false, false, false⟩, 0)).1.bit)
+
+/-- last index `j < n` with `p j`, if any -/
+def lastIdx (n : Nat) (p : Nat → Bool) : Option Nat := (List.range n).reverse.find? p
+
+/-- decide the (refined) `BurstObserved` for `body = ticks[o, o + 8F)`, `lead = ticks[leadFrom, o)`,
+    `tail = ticks[o + 8F, o + 8F + rel + 40)`: `acq` is the least index from which bits, close
+    threshold and (31 ticks later) open threshold are all right; `no_early`: before `acq + 31` no tick
+    has both the open threshold met and a correlator window within `maxErr` of the sync word -/
+def checkBurstAt (maxErr : Nat) (ticks : Array Tick) (payload : List Byte) (leadFrom o : Nat) : Except String FEOk :=
   let frame := (frameOf payload).toArray
   let bits := (bitsOf (frameOf payload)).toArray
   let n := bits.size
   let tk (i : Nat) : Tick := ticks.getD i (⟨false, false, false⟩, 0)
   if o + n > ticks.size then .error "stream_too_short"
+  else if o < 31 then .error "lead_shorter_than_31"
   else
-  match firstIdx n (fun j => (tk (o + j)).1.openOk) with
-  | none => .error "open_ok:never"
-  | some fo =>
-    if fo < 31 then .error s!"open_late:open_at_bit_{fo}"
+    let a1 := match lastIdx n (fun j => (tk (o + j)).1.bit != bits.getD j false) with | some j => j + 1 | none => 0
+    let a2 := match lastIdx n (fun j => !(tk (o + j)).1.closeOk) with | some j => j + 1 | none => 0
+    let a3 := match lastIdx n (fun j => !(tk (o + j)).1.openOk) with | some j => j + 1 - 31 | none => 0
+    let acq := max a1 (max a2 a3)
+    if acq > 89 then .error s!"acq_le:{acq}:bits={a1}:close={a2}:open={a3}"
     else
-      let acq := fo - 31
-      if acq > 89 then .error s!"acq_le:{acq}"
-      else
-      match firstIdx n (fun j => decide (fo ≤ j) && !(tk (o + j)).1.openOk) with
-      | some j => .error s!"open_ok:closed_at_bit_{j}"
-      | none =>
-      match firstIdx n (fun j => decide (acq ≤ j) && (tk (o + j)).1.bit != bits.getD j false) with
-      | some j => .error s!"bits_ok:bit_{j}"
-      | none =>
-      match firstIdx n (fun j => decide (acq ≤ j) && !(tk (o + j)).1.closeOk) with
-      | some j => .error s!"close_ok:bit_{j}"
-      | none =>
+    match firstIdx (acq + 31) (fun j => (tk (o + j)).1.openOk && decide (windowErr ticks (o + j) ≤ maxErr)) with
+    | some j => .error s!"no_early:hit_at_bit_{j}:phase_{j % 8}:err_{windowErr ticks (o + j)}"
+    | none =>
       match firstIdx (frame.size - 3) (fun m => (tk (o + 8 * (m + 3) + 7)).2 != frame.getD m 0) with
       | some m => .error s!"eq_ok:byte_{m}"
       | none =>
@@ -74,11 +78,11 @@ def checkBurstAt (ticks : Array Tick) (payload : List Byte) (leadFrom o : Nat) :
             match firstIdx (rel + 40) (fun k => decide (rel ≤ k) && (tk (e + k)).1.closeOk) with
             | some k => .error s!"rel_drop:reopened_at_{k}"
             | none =>
-            match firstIdx (rel + 40) (fun k => (tk (e + k)).1.openOk) with
-            | some k => .error s!"tail_closed:open_at_{k}"
+            match firstIdx (rel + 40) (fun k => (tk (e + k)).1.openOk && decide (windowErr ticks (e + k) ≤ maxErr)) with
+            | some k => .error s!"tail_no_hit:hit_at_{k}"
             | none =>
-            match firstIdx (o - leadFrom) (fun k => (tk (leadFrom + k)).1.openOk) with
-            | some k => .error s!"lead_closed:open_at_{leadFrom + k}"
+            match firstIdx (o - leadFrom) (fun k => (tk (leadFrom + k)).1.openOk && decide (31 ≤ leadFrom + k) && decide (windowErr ticks (leadFrom + k) ≤ maxErr)) with
+            | some k => .error s!"lead_no_hit:hit_at_{leadFrom + k}"
             | none => .ok ⟨o, acq, rel, e + rel + 40⟩
 
 /-- find the body start near `hint`: the offset at which every transmitted bit from index 96 on is
@@ -93,18 +97,59 @@ def alignBurst (ticks : Array Tick) (payload : List Byte) (hint : Nat) : Option 
     then some o else none)
 
 /-- the bursts of one transmission in order: `(payload, hint)`; result: per burst `FEOk` or the failing clause -/
-def checkTransmission (ticks : Array Tick) (bursts : List (List Byte × Nat)) : List (Except String FEOk) := Id.run do
+def checkTransmission (maxErr : Nat) (ticks : Array Tick) (bursts : List (List Byte × Nat)) : List (Except String FEOk) := Id.run do
   let mut leadFrom := 0
   let mut out : List (Except String FEOk) := []
   for (p, hint) in bursts do
     match alignBurst ticks p hint with
     | none => out := .error "no_alignment" :: out
     | some o =>
-      let r := checkBurstAt ticks p leadFrom o
+      let r := checkBurstAt maxErr ticks p leadFrom o
       match r with
       | .ok ok => leadFrom := ok.next
       | .error _ => leadFrom := o + 8 * (frameOf p).length
       out := r :: out
   return out.reverse
+
+/-! ### the verified check
+
+  `checkTransmission` above SEARCHES: it aligns every burst and finds `acq` and `rel`, and names the
+  first clause that fails (diagnostics).  The verdict `fe_all=sat` is not taken from it: the
+  positions it found are handed to `streamObservedB`, which is `decide` of the very proposition
+  `Spec.StreamObservedF` that the theorems `C01s.stream_bursts` / `ChainR.stream_decoded` take as
+  hypothesis (`streamObservedB_iff`). -/
+
+/-- the bursts found by `checkTransmission`, as the `segs` of `StreamObserved`
+    (`none` unless every burst was found and passed the search's own checks) -/
+def segsOfResults : List (List Byte × Nat) → List (Except String FEOk) → Option (List BurstSpec)
+  | [], [] => some []
+  | (p, _) :: bs, .ok k :: rs => (segsOfResults bs rs).map (fun l => ⟨k.o, p, k.acq, k.rel⟩ :: l)
+  | _, _ => none
+
+/-- **the executable check is the theorems' hypothesis**, evaluated on the tapped tick array -/
+def streamObservedB (maxErr : Nat) (ticks : Array Tick) (segs : List BurstSpec) : Bool :=
+  decide (StreamObservedF maxErr (fun i => ticks.getD i dfltTick) ticks.size segs)
+
+theorem streamObservedB_iff (maxErr : Nat) (ticks : Array Tick) (segs : List BurstSpec) :
+    streamObservedB maxErr ticks segs = true ↔ StreamObserved maxErr ticks.toList segs := by
+  have hf : (fun i => ticks.getD i dfltTick) = (fun i => ticks.toList.getD i dfltTick) := by
+    funext i
+    rw [Array.getD_eq_getD_getElem?, List.getD_eq_getElem?_getD, Array.getElem?_toList]
+  unfold streamObservedB StreamObserved
+  rw [decide_eq_true_iff, hf, Array.length_toList]
+
+/-- soundness: a `sat` verdict is a proof of `StreamObserved` for the tapped stream -/
+theorem streamObservedB_sound (maxErr : Nat) (ticks : Array Tick) (segs : List BurstSpec)
+    (h : streamObservedB maxErr ticks segs = true) : StreamObserved maxErr ticks.toList segs :=
+  (streamObservedB_iff maxErr ticks segs).1 h
+
+/-- which part of `StreamObservedF` fails (diagnostics only) -/
+def streamObservedWhy (maxErr : Nat) (ticks : Array Tick) (segs : List BurstSpec) : String :=
+  let tk := fun i => ticks.getD i dfltTick
+  if ¬ (∀ g ∈ segs, BurstAtF tk ticks.size g) then "burst_clauses"
+  else if ¬ orderedFrom 32 segs then "order"
+  else match (List.range ticks.size).find? (fun t => decide (31 ≤ t) && !decide (InSynced segs t ∨ QuietAtF maxErr tk t)) with
+    | some t => s!"hit_possible_at_{t}"
+    | none => "none"
 
 end SameVerif.Spec
